@@ -4,6 +4,7 @@ import (
 	"fmt"
 	"go/token"
 	"go/types"
+	"os"
 	"sort"
 	"strings"
 
@@ -890,6 +891,11 @@ func checkScatter(p *core.Prog, r *core.Report, ds *core.Describer, f *ssa.Funct
 	}
 	gl, rl := goLoops[0], recvLoops[0]
 	same := gl.RangeExpr() != nil && rl.RangeExpr() != nil && types.ExprString(gl.RangeExpr()) == types.ExprString(rl.RangeExpr())
+	if !same && collectsUntilClosed(p, f, gl, rl, chans) {
+		// the other complete form: the collector receives with `v, ok` until the channels are closed, and they are
+		// closed by a goroutine that has waited for every worker (each worker is counted and calls Done when it returns)
+		same = true
+	}
 	r.Check(same, "C08.i", base+"|starts-equals-receives", p.Pos(rl.Stmt.Pos()), "as many receives as goroutines (both loops range over the same worker count)", "the collector does not perform as many receives as goroutines were started: "+gl.Describe()+" vs "+rl.Describe())
 	noEarlyExit(p, r, "C08.i", gl, "worker start loop")
 	noEarlyExit(p, r, "C08.i", rl, "collector loop")
@@ -1036,4 +1042,147 @@ func sizeIsLoopBound(p *core.Prog, f *ssa.Function, mc *ssa.MakeChan, l *core.Lo
 		})
 	}
 	return found
+}
+
+// collectsUntilClosed: the collector's select receives in the two-value form; every channel made by the function is
+// closed, in a goroutine, after a WaitGroup.Wait; every goroutine started in the start loop defers Done; and the group
+// is given one count per start (Add(1) in the start loop, or one Add of the start loop's bound ahead of it).
+func collectsUntilClosed(p *core.Prog, f *ssa.Function, gl, rl *core.Loop, chans []*ssa.MakeChan) bool {
+	// two-value receives
+	okForm := false
+	core.EachInstr(f, func(in ssa.Instruction) {
+		sel, ok := in.(*ssa.Select)
+		if !ok || !rl.Contains(sel.Pos()) || sel.Referrers() == nil {
+			return
+		}
+		for _, ref := range *sel.Referrers() {
+			if ex, ok := ref.(*ssa.Extract); ok && ex.Index == 1 && ex.Referrers() != nil && len(*ex.Referrers()) > 0 {
+				okForm = true
+			}
+		}
+	})
+	if !okForm {
+		return false
+	}
+	isWG := func(c *ssa.CallCommon, name string) bool {
+		callee := c.StaticCallee()
+		return callee != nil && callee.Name() == name && callee.Pkg != nil && callee.Pkg.Pkg.Path() == "sync" && callee.Signature.Recv() != nil && strings.HasSuffix(callee.Signature.Recv().Type().String(), "sync.WaitGroup")
+	}
+	// closures started with `go`, by where
+	closed := map[*ssa.MakeChan]bool{}
+	workersDone := 0
+	workers := 0
+	core.EachInstr(f, func(in ssa.Instruction) {
+		g, ok := in.(*ssa.Go)
+		if !ok {
+			return
+		}
+		mc, ok := g.Call.Value.(*ssa.MakeClosure)
+		if !ok {
+			return
+		}
+		fn, ok := mc.Fn.(*ssa.Function)
+		if !ok {
+			return
+		}
+		if gl.Contains(g.Pos()) {
+			workers++
+			hasDone := false
+			core.EachInstr(fn, func(in2 ssa.Instruction) {
+				if d, ok := in2.(*ssa.Defer); ok && isWG(&d.Call, "Done") {
+					hasDone = true
+				}
+			})
+			if hasDone {
+				workersDone++
+			}
+			return
+		}
+		// the closer: Wait, then close of captured channels
+		var wait ssa.Instruction
+		core.EachInstr(fn, func(in2 ssa.Instruction) {
+			if c, ok := in2.(*ssa.Call); ok && isWG(&c.Call, "Wait") && wait == nil {
+				wait = c
+			}
+		})
+		if wait == nil || !addsPrecede(p, f, g, isWG) {
+			return
+		}
+		core.EachInstr(fn, func(in2 ssa.Instruction) {
+			c, ok := in2.(*ssa.Call)
+			if !ok {
+				return
+			}
+			b, ok := c.Call.Value.(*ssa.Builtin)
+			if !ok || b.Name() != "close" || len(c.Call.Args) != 1 || !core.InstrDominates(wait, c) {
+				return
+			}
+			ld, ok := c.Call.Args[0].(*ssa.UnOp)
+			if !ok || ld.Op != token.MUL {
+				return
+			}
+			fv, ok := ld.X.(*ssa.FreeVar)
+			if !ok {
+				return
+			}
+			for i, x := range fn.FreeVars {
+				if x != fv || i >= len(mc.Bindings) {
+					continue
+				}
+				a, ok := mc.Bindings[i].(*ssa.Alloc)
+				if !ok || a.Referrers() == nil {
+					continue
+				}
+				for _, ref := range *a.Referrers() {
+					if st, ok := ref.(*ssa.Store); ok && st.Addr == ssa.Value(a) {
+						if m, ok := st.Val.(*ssa.MakeChan); ok {
+							closed[m] = true
+						}
+					}
+				}
+			}
+		})
+	})
+	if os.Getenv("VCHECK_DEBUG08") != "" {
+		fmt.Fprintln(os.Stderr, "collectsUntilClosed", okForm, workers, workersDone, len(closed), len(chans))
+	}
+	if workers == 0 || workersDone != workers {
+		return false
+	}
+	for _, m := range chans {
+		if !closed[m] {
+			return false
+		}
+	}
+	// one count per start
+	counted := false
+	core.EachInstr(f, func(in ssa.Instruction) {
+		c, ok := in.(*ssa.Call)
+		if !ok || !isWG(&c.Call, "Add") || len(c.Call.Args) != 2 {
+			return
+		}
+		arg := c.Call.Args[1]
+		if k, isC := arg.(*ssa.Const); isC && k.Value != nil && k.Value.String() == "1" && gl.Contains(c.Pos()) {
+			counted = true
+			return
+		}
+		if gl.Contains(c.Pos()) {
+			return
+		}
+		// Add(n) ahead of the loop: n is what the start loop counts up to
+		core.EachInstr(f, func(in2 ssa.Instruction) {
+			b, ok := in2.(*ssa.BinOp)
+			if !ok || b.Op != token.LSS || b.Y != arg {
+				return
+			}
+			x := b.X
+			if inc, ok := x.(*ssa.BinOp); ok && inc.Op == token.ADD {
+				x = inc.X // the rotated form of `for i := range n` tests i+1 < n at the foot of the body
+			}
+			if _, isPhi := x.(*ssa.Phi); isPhi && (gl.Contains(b.Pos()) || !b.Pos().IsValid() || core.InLoop(b)) {
+				counted = true
+			}
+		})
+	})
+	return counted
 }
